@@ -22,6 +22,7 @@ pub struct Hist {
     pub n_enc_d: u64,
     /// emit the C13 specification predicates on the real observations
     pub spec13: bool,
+    pub saved: Option<(String, String)>,
 }
 
 pub fn dev_outcome_class(o: &RequestAuthenticationOutcome) -> &'static str {
@@ -44,7 +45,7 @@ pub fn rdr_outcome_class(o: &ResponseAuthenticationOutcome) -> String {
 impl Hist {
     pub fn start(ctx: &mut Ctx, sim: Sim, tag: &str) -> Hist {
         let mut h = Hist { sim, tag: tag.into(), to_dev: vec![], to_rdr: vec![], extra: vec![], ops: vec![],
-                           last_req_outcome: None, last_resp_outcome: None, n_enc_r: 1, n_enc_d: 0, spec13: false };
+                           last_req_outcome: None, last_resp_outcome: None, n_enc_r: 1, n_enc_d: 0, spec13: false, saved: None };
         let d = h.sim.describe(&h.sim.establishment.clone(), &[]);
         h.to_dev.push((h.sim.establishment.clone(), d));
         let real = h.sim.summary();
@@ -206,6 +207,51 @@ impl Hist {
         self.n_enc_r = re as u64; self.n_enc_d = de as u64;
         let real = self.sim.summary();
         self.emit(ctx, format!("sess.setCounters {de} {dd} {re} {rd}"), real);
+    }
+
+    pub fn save(&mut self, ctx: &mut Ctx) {
+        use isomdl::presentation::Stringify;
+        self.saved = Some((self.sim.dev.stringify().unwrap(), self.sim.rdr.stringify().unwrap()));
+        self.emit(ctx, "sess.save".into(), "saved".into());
+    }
+    pub fn load(&mut self, ctx: &mut Ctx) {
+        use isomdl::presentation::Stringify;
+        let (d, r) = self.saved.clone().unwrap();
+        self.sim.dev = isomdl::presentation::device::SessionManager::parse(d).unwrap();
+        self.sim.rdr = isomdl::presentation::reader::SessionManager::parse(r).unwrap();
+        let real = self.sim.summary();
+        self.emit(ctx, "sess.load".into(), real);
+    }
+    /// deliver to the device and also evaluate the C06 predicate on the real observation
+    pub fn deliver_dev_c06(&mut self, ctx: &mut Ctx, msg: &[u8], desc: &str, honest: Option<bool>, what: &str) {
+        let before = self.sim.dev_state_str();
+        let enc_before = sess::peek_device(&self.sim.dev).dev_ctr;
+        self.handle_request(ctx, msg, desc);
+        let o = self.last_req_outcome.clone().unwrap();
+        let after = self.sim.dev_state_str();
+        let unchanged = before == after && enc_before == sess::peek_device(&self.sim.dev).dev_ctr;
+        let has_data = !o.items_request.is_empty() || o.common_name.is_some()
+            || !matches!(o.reader_authentication, isomdl::presentation::authentication::AuthenticationStatus::Unchecked);
+        let cls = dev_outcome_class(&o);
+        let t = |b: bool| if b { "t" } else { "f" };
+        let op = match honest { Some(h) => format!("spec.c06 {} {} {} {}", t(h), cls, t(unchanged), t(has_data)),
+                                None => format!("spec.c06w {} {} {}", cls, t(unchanged), t(has_data)) };
+        ctx.emit.line("spec", &format!("spec:{}:dev:{}", self.tag, what), op, "true".into(),
+            serde_json::json!({"history": self.ops.clone(), "delivered": desc, "what": what, "msg_hex": hex::encode(msg)}));
+    }
+    pub fn deliver_rdr_c06(&mut self, ctx: &mut Ctx, msg: &[u8], desc: &str, honest: Option<bool>, what: &str) {
+        let enc_before = sess::peek_reader(&self.sim.rdr).rdr_ctr;
+        self.handle_response(ctx, msg, desc);
+        let o = self.last_resp_outcome.clone().unwrap();
+        let unchanged = enc_before == sess::peek_reader(&self.sim.rdr).rdr_ctr;
+        use isomdl::presentation::authentication::AuthenticationStatus as A;
+        let has_data = !o.response.is_empty() || !matches!(o.issuer_authentication, A::Unchecked) || !matches!(o.device_authentication, A::Unchecked);
+        let cls = rdr_outcome_class(&o);
+        let t = |b: bool| if b { "t" } else { "f" };
+        let op = match honest { Some(h) => format!("spec.c06 {} {} {} {}", t(h), cls, t(unchanged), t(has_data)),
+                                None => format!("spec.c06w {} {} {}", cls, t(unchanged), t(has_data)) };
+        ctx.emit.line("spec", &format!("spec:{}:rdr:{}", self.tag, what), op, "true".into(),
+            serde_json::json!({"history": self.ops.clone(), "delivered": desc, "what": what, "msg_hex": hex::encode(msg)}));
     }
 
     /// one random operation from the C07/C13 alphabet; returns a short label
